@@ -17,13 +17,13 @@
 // a pure, deterministic function `cond_holds(f, model, state)` of its arguments and always returns.
 #[verifier::external_body]
 #[verifier::reject_recursive_types(M)]
-pub struct CondFn<M: Model> { f: fn(&M, &M::State) -> bool }
+struct CondFn<M: Model> { f: fn(&M, &M::State) -> bool }
 
-pub uninterp spec fn cond_holds<M: Model>(f: CondFn<M>, m: M, s: M::State) -> bool;
+uninterp spec fn cond_holds<M: Model>(f: CondFn<M>, m: M, s: M::State) -> bool;
 
 // R6: `IDENT(model, &state)` on a fn-pointer binding `condition: IDENT` -> `call_cond(IDENT, model, &state)`.
 #[verifier::external_body]
-pub fn call_cond<M: Model>(f: &CondFn<M>, m: &M, s: &M::State) -> (b: bool)
+fn call_cond<M: Model>(f: &CondFn<M>, m: &M, s: &M::State) -> (b: bool)
     ensures b == cond_holds(*f, *m, *s)
 { (f.f)(m, s) }
 
@@ -39,7 +39,7 @@ spec fn cond<M: Model>(p: Property<M>, m: M, s: M::State) -> bool { cond_holds(p
 // A-PURE: the callbacks of a model are pure deterministic total functions of their arguments.  The
 // spec functions are the mathematical model (DESIGN.md 4); each exec method is tied to its spec
 // function by `ensures`.  Only the callbacks the checkers call are listed.
-pub trait Model: Sized {
+trait Model: Sized {
     type State;
     type Action;
     spec fn inits(&self) -> Seq<Self::State>;
@@ -62,36 +62,37 @@ pub trait Model: Sized {
 
 // ---- derived vocabulary (DESIGN.md 4) ----
 // t is an in-boundary successor of s
-pub open spec fn is_succ<M: Model>(m: M, s: M::State, t: M::State) -> bool {
+spec fn is_succ<M: Model>(m: M, s: M::State, t: M::State) -> bool {
     exists|a: M::Action| #[trigger] m.acts(s).contains(a) && m.nxt(s, a) == Some(t) && m.within(t)
 }
 // s is an in-boundary initial state
-pub open spec fn is_init<M: Model>(m: M, s: M::State) -> bool { m.inits().contains(s) && m.within(s) }
+spec fn is_init<M: Model>(m: M, s: M::State) -> bool { m.inits().contains(s) && m.within(s) }
 // s has no in-boundary successor at all: a path ending in s cannot be extended inside the boundary
-pub open spec fn is_dead_end<M: Model>(m: M, s: M::State) -> bool { forall|t: M::State| !is_succ(m, s, t) }
+spec fn is_dead_end<M: Model>(m: M, s: M::State) -> bool { forall|t: M::State| !is_succ(m, s, t) }
 // ss is a path of the model: starts in an in-boundary initial state and follows in-boundary transitions
-pub open spec fn is_path<M: Model>(m: M, ss: Seq<M::State>) -> bool {
+spec fn is_path<M: Model>(m: M, ss: Seq<M::State>) -> bool {
     &&& ss.len() > 0
     &&& is_init(m, ss[0])
     &&& forall|i: int| 0 <= i < ss.len() - 1 ==> is_succ(m, #[trigger] ss[i], ss[i + 1])
 }
-// reachable in at most... exactly n in-boundary transitions from an in-boundary initial state
-pub open spec fn reach_n<M: Model>(m: M, s: M::State, n: nat) -> bool
-    decreases n
-{
-    if n == 0 { is_init(m, s) } else { exists|q: M::State| #[trigger] reach_n(m, q, (n - 1) as nat) && is_succ(m, q, s) }
+// reachable by n in-boundary transitions from an in-boundary initial state; reachable at all.
+// (Stated through paths rather than by recursion on n: no recursive call under a quantifier.)
+spec fn reach_n<M: Model>(m: M, s: M::State, n: nat) -> bool {
+    exists|ss: Seq<M::State>| #[trigger] is_path(m, ss) && ss.last() == s && ss.len() == n + 1
 }
-pub open spec fn reach<M: Model>(m: M, s: M::State) -> bool { exists|n: nat| reach_n(m, s, n) }
+spec fn reach<M: Model>(m: M, s: M::State) -> bool {
+    exists|ss: Seq<M::State>| #[trigger] is_path(m, ss) && ss.last() == s
+}
 
 // A-FP: `fingerprint` is a deterministic function of the state.  Collision freedom is NOT an axiom:
 // contracts that need it say `fp_injective_on(..)` explicitly.
 // (named `fp_of` because /repo uses `fp` as a parameter name)
-pub uninterp spec fn fp_of<S>(s: S) -> Fingerprint;
-pub open spec fn fp_injective_on<S>(dom: Set<S>) -> bool {
+uninterp spec fn fp_of<S>(s: S) -> Fingerprint;
+spec fn fp_injective_on<S>(dom: Set<S>) -> bool {
     forall|a: S, b: S| dom.contains(a) && dom.contains(b) && fp_of(a) == fp_of(b) ==> a == b
 }
 #[verifier::external_body]
-pub fn fingerprint<T: Hash>(value: &T) -> (f: Fingerprint)
+fn fingerprint<T: Hash>(value: &T) -> (f: Fingerprint)
     ensures f == fp_of(*value)
 { unimplemented!() }
 
@@ -101,53 +102,53 @@ pub fn fingerprint<T: Hash>(value: &T) -> (f: Fingerprint)
 #[verifier::external_body]
 #[verifier::reject_recursive_types(K)]
 #[verifier::reject_recursive_types(V)]
-pub struct SeqMap<K, V> { k: Vec<K>, v: Vec<V> }
+struct SeqMap<K, V> { k: Vec<K>, v: Vec<V> }
 impl<K, V> SeqMap<K, V> {
-    pub uninterp spec fn view(&self) -> Map<K, V>;
+    uninterp spec fn view(&self) -> Map<K, V>;
     // "Inserts a key and a value into the map. Returns the old value associated with the key if there was one."
     #[verifier::external_body]
-    pub fn insert(&mut self, k: K, v: V) -> (r: Option<V>)
+    fn insert(&mut self, k: K, v: V) -> (r: Option<V>)
         ensures final(self)@ == old(self)@.insert(k, v),
                 r == (if old(self)@.contains_key(k) { Some(old(self)@[k]) } else { None::<V> }),
     { unimplemented!() }
     // "Get an immutable reference to an entry in the map" (the `Ref` guard is a plain reference here)
     #[verifier::external_body]
-    pub fn get(&self, k: &K) -> (r: Option<&V>)
+    fn get(&self, k: &K) -> (r: Option<&V>)
         ensures r == (if self@.contains_key(*k) { Some(&self@[*k]) } else { None::<&V> }),
     { unimplemented!() }
     #[verifier::external_body]
-    pub fn len(&self) -> (r: usize)
+    fn len(&self) -> (r: usize)
         ensures r == self@.dom().len(),
     { unimplemented!() }
 }
 // `contains_key<Q>(&self, key: &Q) where K: Borrow<Q>`: one instance per key type the checkers use
 impl<V> SeqMap<&'static str, V> {
     #[verifier::external_body]
-    pub fn contains_key(&self, k: &str) -> (r: bool) ensures r == self@.contains_key(k) { unimplemented!() }
+    fn contains_key(&self, k: &str) -> (r: bool) ensures r == self@.contains_key(k) { unimplemented!() }
 }
 impl<V> SeqMap<Fingerprint, V> {
     #[verifier::external_body]
-    pub fn contains_key(&self, k: &Fingerprint) -> (r: bool) ensures r == self@.contains_key(*k) { unimplemented!() }
+    fn contains_key(&self, k: &Fingerprint) -> (r: bool) ensures r == self@.contains_key(*k) { unimplemented!() }
 }
 
 // R7 / A-SEQ: `&AtomicUsize` becomes `&mut Counter` (`&Counter` where only read); memory orderings are
 // irrelevant for one worker.  `fetch_add` wraps on overflow as std documents.
 #[verifier::external_body]
-pub struct Counter { c: usize }
+struct Counter { c: usize }
 impl Counter {
-    pub uninterp spec fn view(&self) -> usize;
+    uninterp spec fn view(&self) -> usize;
     #[verifier::external_body]
-    pub fn load(&self, o: Ordering) -> (r: usize) ensures r == self@ { self.c }
+    fn load(&self, o: Ordering) -> (r: usize) ensures r == self@ { self.c }
     // "Adds to the current value, returning the previous value. This operation wraps around on overflow."
     #[verifier::external_body]
-    pub fn fetch_add(&mut self, v: usize, o: Ordering) -> (r: usize)
+    fn fetch_add(&mut self, v: usize, o: Ordering) -> (r: usize)
         ensures r == old(self)@,
                 final(self)@ as int == (if old(self)@ + v <= usize::MAX { old(self)@ + v } else { old(self)@ + v - usize::MAX - 1 }),
     { let r = self.c; self.c = r.wrapping_add(v); r }
     // "Stores a value if the current value is the same as `current`. The return value is a result
     // indicating whether the new value was written and containing the previous value."
     #[verifier::external_body]
-    pub fn compare_exchange(&mut self, current: usize, new: usize, s: Ordering, f: Ordering) -> (r: Result<usize, usize>)
+    fn compare_exchange(&mut self, current: usize, new: usize, s: Ordering, f: Ordering) -> (r: Result<usize, usize>)
         ensures old(self)@ == current ==> final(self)@ == new && r == Ok::<usize, usize>(current),
                 old(self)@ != current ==> final(self)@ == old(self)@ && r == Err::<usize, usize>(old(self)@),
     { if self.c == current { self.c = new; Ok(current) } else { Err(self.c) } }
@@ -193,15 +194,15 @@ pub mod id_set {
 spec fn path_states<S, A>(p: Path<S, A>) -> Seq<S> { Seq::new(p.0@.len(), |i: int| p.0@[i].0) }
 
 // fps is the fingerprint sequence of the state sequence ss
-pub open spec fn has_fps<S>(ss: Seq<S>, fps: Seq<Fingerprint>) -> bool {
+spec fn has_fps<S>(ss: Seq<S>, fps: Seq<Fingerprint>) -> bool {
     ss.len() == fps.len() && forall|i: int| 0 <= i < ss.len() ==> fp_of(#[trigger] ss[i]) == fps[i]
 }
 // t is a successor of s (boundary not considered)
-pub open spec fn is_step<M: Model>(m: M, s: M::State, t: M::State) -> bool {
+spec fn is_step<M: Model>(m: M, s: M::State, t: M::State) -> bool {
     exists|a: M::Action| #[trigger] m.acts(s).contains(a) && m.nxt(s, a) == Some(t)
 }
 // ss starts in an initial state (boundary NOT required by from_fingerprints) and follows transitions
-pub open spec fn is_chain<M: Model>(m: M, ss: Seq<M::State>) -> bool {
+spec fn is_chain<M: Model>(m: M, ss: Seq<M::State>) -> bool {
     &&& ss.len() > 0
     &&& m.inits().contains(ss[0])
     &&& forall|i: int| 0 <= i < ss.len() - 1 ==> is_step(m, #[trigger] ss[i], ss[i + 1])
@@ -232,16 +233,16 @@ impl<State, Action> Path<State, Action> {
 // the rule threads through: the real visitor has interior mutability).
 #[verifier::external_body]
 #[verifier::reject_recursive_types(M)]
-pub struct VisitorBox<M: Model> { v: Option<M> }
+struct VisitorBox<M: Model> { v: Option<M> }
 #[verifier::external_body]
 #[verifier::reject_recursive_types(M)]
-pub struct VisitLog<M: Model> { v: Option<M> }
+struct VisitLog<M: Model> { v: Option<M> }
 impl<M: Model> VisitLog<M> {
-    pub uninterp spec fn view(&self) -> Seq<Path<M::State, M::Action>>;
+    uninterp spec fn view(&self) -> Seq<Path<M::State, M::Action>>;
 }
 impl<M: Model> VisitorBox<M> {
     #[verifier::external_body]
-    pub fn visit(&self, model: &M, path: Path<M::State, M::Action>, log: &mut VisitLog<M>)
+    fn visit(&self, model: &M, path: Path<M::State, M::Action>, log: &mut VisitLog<M>)
         ensures final(log)@ == old(log)@.push(path)
     { unimplemented!() }
 }
@@ -250,16 +251,16 @@ impl<M: Model> VisitorBox<M> {
 // (std: "Removes the specified range from the vector in bulk, returning all removed elements as an iterator").
 #[verifier::external_body]
 #[verifier::reject_recursive_types(T)]
-pub struct DrainAll<T> { v: VecDeque<T> }
+struct DrainAll<T> { v: VecDeque<T> }
 impl<T> DrainAll<T> {
-    pub uninterp spec fn view(&self) -> Seq<T>;
+    uninterp spec fn view(&self) -> Seq<T>;
     #[verifier::external_body]
-    pub fn next(&mut self) -> (r: Option<T>)
+    fn next(&mut self) -> (r: Option<T>)
         ensures old(self)@.len() == 0 ==> r.is_none() && final(self)@ == old(self)@,
                 old(self)@.len() > 0 ==> r == Some(old(self)@[0]) && final(self)@ == old(self)@.drop_first(),
     { self.v.pop_front() }
 }
 #[verifier::external_body]
-pub fn drain_all<T>(v: &mut Vec<T>) -> (r: DrainAll<T>)
+fn drain_all<T>(v: &mut Vec<T>) -> (r: DrainAll<T>)
     ensures r@ == old(v)@, final(v)@.len() == 0
 { DrainAll { v: v.drain(..).collect() } }
